@@ -11,7 +11,8 @@ model C11/Bindings.v transcribes, re-read from /repo's working tree on every che
       value / set_value, _VarBindings, _ThreadBindings (both `threading.local` subclasses) and
       get_thread_bindings have the modelled text.
 * `binding_forms_shape`        : 1 iff core.lpy's `binding`, `with-bindings*`, `bound-fn*`,
-      `future-call` have the modelled text (push, try body, finally pop; snapshot at creation).
+      `future-call` have the modelled text (push, try body, finally pop; snapshot at creation)
+      and runtime.bindings (context manager) is push, then try: yield, finally: pop.
 String constants (error messages) and docstrings are ignored.
 """
 import ast
@@ -179,7 +180,23 @@ FORMS = {
 }
 
 
+BINDINGS_CM = ("m = lmap.map(bindings or {})\nlogger.debug(f'')\npush_thread_bindings(m)\ntry:\n    yield\n"
+               "finally:\n    pop_thread_bindings()\n    logger.debug(f'')")
+
+
+def _norm_cm(fn):
+    """like _norm, with f-strings (log messages) blanked"""
+    class _NoF(_NoStr):
+        def visit_JoinedStr(self, node):
+            return ast.copy_location(ast.JoinedStr(values=[]), node)
+    body = [s for s in fn.body if not (isinstance(s, ast.Expr) and isinstance(s.value, ast.Constant))]
+    return "\n".join(ast.unparse(ast.fix_missing_locations(_NoF().visit(s))) for s in body)
+
+
 def item_forms_shape():
+    got = _norm_cm(_find_fn(_tree(), "bindings"))
+    if got != BINDINGS_CM:
+        raise Refuse("runtime.bindings no longer has the modelled shape (push, try: yield, finally: pop):\n" + got)
     text = _src(CORE)
     for head, want in FORMS.items():
         got = _form_text(text, head)
